@@ -121,6 +121,8 @@ TRANSPARENT = [
     ('ops::index::IndexMut<I>>::index_mut', 0, 'index'),
     ('cell::Cell::<T>::get', 0, 'cell'),
     ('cell::Cell::<T>::replace', 0, 'cell'),
+    ('option::Option::<T>::as_mut', 0, 'as_ref'),
+    ('option::Option::<T>::as_ref', 0, 'as_ref'),
     ('option::Option::<T>::map', 0, 'map'),
     ('result::Result::<T, E>::map', 0, 'map'),
     ('::from_le_bytes', 0, 'from_le'),
